@@ -439,6 +439,36 @@ def userdata_cases(mon, sc, rng, n):
         want.update(defines)
         got = dict(config.userdata)
         mon.check("userdata.cmdline_overrides_file", got == want, lambda: dict(case=case, got=got, want=want))
+    # ---- what the reporters built by the Configuration read from user data: -D wins over the file there, too ------------
+    for i in range(max(8, n // 30)):
+        sc.clear_files()
+        file_fmt = rng.choice(["v1", "v1A", "v2", "v3"])
+        cmd_fmt = rng.choice([None, "v1B", "v2", "v3"])
+        fdata = {"behave.reporter.summary.output_format": file_fmt, "behave.reporter.junit.show_hostname": rng.choice(["true", "false"])}
+        cmd_host = rng.choice([None, "true", "false"])
+        fname = rng.choice(["behave.ini", "pyproject.toml"])
+        with open(os.path.join(sc.cwd, fname), "w", encoding="utf-8") as fh:
+            fh.write(toml_text({}, fdata) if fname.endswith(".toml") else ini_text({}, fdata))
+        args = ["--junit"]
+        if cmd_fmt:
+            args += ["-D", "behave.reporter.summary.output_format=%s" % cmd_fmt]
+        if cmd_host:
+            args += ["-D", "behave.reporter.junit.show_hostname=%s" % cmd_host]
+        config, err = make_config(args)
+        case = {"file": fname, "file_userdata": fdata, "args": args}
+        mon.case(("reporter-userdata", fname, tuple(sorted(fdata.items())), tuple(args)), True)
+        if config is None:
+            mon.check("userdata.reporters_see_cmdline_definitions", False, dict(case=case, error=err))
+            continue
+        got = {}
+        for rep in config.reporters:
+            if type(rep).__name__.startswith("SummaryReporter"):
+                got["summary.output_format"] = rep.output_format
+            if type(rep).__name__ == "JUnitReporter":
+                got["junit.show_hostname"] = rep.show_hostname
+        want = {"summary.output_format": cmd_fmt or file_fmt,
+                "junit.show_hostname": (cmd_host or fdata["behave.reporter.junit.show_hostname"]) == "true"}
+        mon.check("userdata.reporters_see_cmdline_definitions", got == want, lambda: dict(case=case, got=got, want=want))
     # ---- -D on top of user data handed in by an embedding program (Configuration(..., userdata=...)) ---------------
     for i in range(max(10, n // 20)):
         sc.clear_files()
